@@ -46,32 +46,49 @@ def documentedTables : Tables where
 /-- **The tables in the source are the documented ones.** -/
 theorem cli_tables_ok : cliTables = documentedTables ∧ cliExitSuccess = 0 := by decide
 
-/-- opgen's own output sites: the entropy (a number), the password line, usage text, and fatal
-errors through the log (stderr). -/
-theorem cli_output_sites :
-    cliOutputSites.map (fun s => (s.2.1, s.2.2.1)) =
-      [("main", "fmt.Printf"), ("main", "log.Fatalln"), ("main", "fmt.Println"),
-       ("parseWordList", "log.Printf"), ("loadWordListFile", "log.Fatalln"),
-       ("loadWordListFile", "log.Fatalln"), ("printUsage", "fmt.Println")] := by decide
+/-- What an output call of opgen may look like: the entropy (`fmt.Printf` with a constant format and
+a number), the password line (`fmt.Println` of one string) or constant usage text, and failures
+through the log (standard error). A password given to `Printf` as a format, a second print of
+the password, a `fmt.Print` of something else — each is a site of another shape. Function names
+do not matter (extracting a helper changes nothing here). -/
+def okCliOutput (s : String × String × String × List String) : Bool :=
+  let callee := s.2.2.1
+  let args := s.2.2.2
+  if callee == "fmt.Printf" then
+    args.head? == some "const" && args.tail.all (fun a => a == "const" || a == "numeric:float32" || a == "numeric:float64")
+  else if callee == "fmt.Println" then
+    args == ["other:string"] || args.all (· == "const")
+  else
+    ["log.Fatalln", "log.Fatalf", "log.Fatal", "log.Printf", "log.Println", "log.Print"].contains callee
 
-/-- Every call opgen makes into another package, or to a method, by function — the I/O and
-library surface the model of `main` accounts for: the word file is read whole
-(`ioutil.ReadFile`) and split at white space (`strings.Fields`), lists go through `NewWordList`,
-results leave through `fmt.Printf`/`fmt.Println`, failures through `log` and `os.Exit`. A change of
-this surface (a different way of reading the file, of printing the result, …) breaks this
-obligation; whether it breaks the property is then for the failing-input search to say. -/
-theorem cli_calls :
-    cliCalls =
-      ["charGenerator -> go.1password.io/spg.NewCharRecipe",
-       "loadWordListFile -> go.1password.io/spg.NewWordList", "loadWordListFile -> io/ioutil.ReadFile",
-       "loadWordListFile -> log.Fatalln", "loadWordListFile -> strings.Fields",
-       "main -> charactersCommand.Parse", "main -> flag.Parse", "main -> fmt.Printf", "main -> fmt.Println",
-       "main -> generator.Entropy", "main -> generator.Generate", "main -> log.Fatalln", "main -> os.Exit",
-       "main -> pwd.String", "main -> wordlistCommand.Parse",
-       "parseCharacterClasses -> strings.Replace", "parseCharacterClasses -> strings.Split",
-       "parseRecipe -> os.Exit", "parseWordList -> go.1password.io/spg.NewWordList",
-       "parseWordList -> log.Printf", "parseWordList -> os.Exit", "printUsage -> fmt.Println",
-       "wlGenerator -> go.1password.io/spg.NewWLRecipe"] := by decide
+theorem cli_output_sites : (cliOutputSites.all okCliOutput) = true := by decide
+
+/-- Exactly one site prints a string that is not a constant: the password line. -/
+theorem cli_one_password_site :
+    (cliOutputSites.filter fun s => s.2.2.1 == "fmt.Println" && s.2.2.2 == ["other:string"]).length = 1 := by decide
+
+/-- Packages whose functions compute on their arguments only (no I/O, no state). -/
+def purePackages : List String := ["strings", "strconv", "unicode", "unicode/utf8", "sort", "bytes", "math", "errors"]
+
+/-- The I/O and library surface the model of `main` accounts for: the word file is read whole
+(`ioutil.ReadFile` / `os.ReadFile`), lists go through `NewWordList`, recipes through the two
+constructors and the `Generator` interface, flags through package `flag`, results leave through
+`fmt.Printf`/`fmt.Println`, failures through `log` and `os.Exit`. -/
+def cliSurface : List (String × String) :=
+  [("(*flag.FlagSet)", "Parse"), ("flag", "Parse"), ("flag", "NewFlagSet"),
+   ("(go.1password.io/spg.Generator)", "Entropy"), ("(go.1password.io/spg.Generator)", "Generate"),
+   ("(go.1password.io/spg.Password)", "String"), ("(*go.1password.io/spg.Password)", "String"),
+   ("go.1password.io/spg", "NewCharRecipe"), ("go.1password.io/spg", "NewWLRecipe"), ("go.1password.io/spg", "NewWordList"),
+   ("io/ioutil", "ReadFile"), ("os", "ReadFile"), ("os", "Exit"),
+   ("fmt", "Printf"), ("fmt", "Println"), ("fmt", "Sprintf"), ("fmt", "Errorf"),
+   ("log", "Fatalln"), ("log", "Fatalf"), ("log", "Fatal"), ("log", "Printf"), ("log", "Println")]
+
+/-- Every function of another package and every method that opgen calls is a pure helper or part
+of that surface. A different way of reading the file, of printing the result, of reaching the
+library (a direct call to a recipe method, say) is outside it and breaks this obligation; whether
+it breaks the property is then for the failing-input search to say. Which of opgen's own
+functions makes the call does not matter. -/
+theorem cli_calls : (cliCalls.all fun c => purePackages.contains c.1 || cliSurface.contains c) = true := by decide
 
 theorem cli_no_args (t : Tables) : action t [] = .usage := rfl
 
